@@ -37,7 +37,6 @@ Core Lean only.
 namespace PebblesVerif.Spec
 open PebblesVerif
 
-def isBuiltinName (s : String) : Bool := s.startsWith "__"
 
 def tn (s : String) : String × J := ("__typename", .str s)
 
